@@ -3,7 +3,12 @@ proof: Coq theorems about the verified oracles (sat_or_flagged, Bellman-Ford pos
 directions) and about the executable IncSolver model (Vpsc/VpscInv.v);
 tie: C (the hand-written model, extracted, is run against the compiled libvpsc AND the libavoid copy on the same op
 histories: flags and block partition exactly, positions to 1e-9*scale) + V (the verified oracles decide every real
-output: unflagged => holds within 1e-6; inequality-only: flagged <=> verified positive cycle)."""
+output: unflagged => holds within 1e-6; inequality-only: flagged <=> verified positive cycle).
+Static Solver: all multigraphs (DAGs, cycles of total gap -1/0/+1, random digraphs, the exhaustive 2- and 3-variable
+families); its report is the UnsatisfiedConstraint thrown by the closing scan: a normal return must satisfy every
+constraint (sat_or_flagged with no flags), a throw is legitimate iff the verified detector finds a positive cycle; a throw
+on a feasible cyclic system is the known finding static_solver_throws_on_feasible_cycle (classifier in vlib/c01lib.py).
+Histories may also change Variable::weight between solves (op W; model: Vpsc/VpscModelW.v, proofs: Vpsc/VpscWeight.v)."""
 import os, json
 from fractions import Fraction as Fr
 from vlib import common as C
@@ -176,7 +181,8 @@ def run(tier):
     res.cov.update({'evaluations': evals, 'distinct_nontrivial': len(nontrivial),
                     'rule': 'one evaluation = one solve()/satisfy() return of the real solver checked by the verified oracles and (IncSolver) compared with '
                             'the extracted model; instances from SplitMix64(seed): DAGs, chains needing splits, cycles of total gap -1/0/+1, duplicates, '
-                            '25% equalities, scaled variables, negative/zero gaps, op histories (addConstraint / desired position / re-solve) up to 8 ops; '
+                            '25% equalities, scaled variables, negative/zero gaps, op histories (addConstraint / desired position / Variable::weight / re-solve) up to 8 ops; '
+                            'static Solver on DAGs and on cyclic multigraphs (a throw of UnsatisfiedConstraint = reported; legitimate iff verified positive cycle); '
                             'non-trivial = distinct instances in which some constraint ended active or flagged unsatisfiable',
                     'exhaustive': False,
                     'exhaustive_note': 'set exhaustive-small: ' + ('1/7 of the n=2 family (rotating with the seed)' if quick else
@@ -230,6 +236,8 @@ META = {
                 'for a fresh solver and is preserved by every op of every history (merge, Block::split incl. populateSplitBlock from both ends, findMinLMBetween '
                 'returns a separating constraint, splitBlocks, satisfy, solve, addConstraint, desired-position changes); consequences proved for all histories: '
                 'C01_sat_on_return_history (every returned state: unflagged constraints >= -1e-10, active constraints and unflagged equalities exactly 0), '
+                'the same for histories that also change Variable::weight between solves (C01_set_weight_preserves, C01_weight_history_inv, '
+                'C01_no_final_throw_weight_history, C01_sat_on_return_weight_history; op SetWeight is a wrapper step_w around step, Vpsc/VpscModelW.v), '
                 'C01_no_final_throw / C01_step_never_throws (satisfy/solve never return the final-scan throw; OutOfFuel excluded), C01_no_division_by_zero '
                 '(A2 > 0 and A2 = sum over the block in every reachable state); the boolean versions of these invariants are evaluated by the extracted model on '
                 'every state it visits on every run (evidence key model_invariants). '
@@ -239,6 +247,9 @@ META = {
     'level_note': 'Trusted: Coq kernel; extraction (ExtrOcamlBasic) + OCaml driver; C++ harness; exact-rational model of binary64 (ties detected and '
                   'counted). Not proved: termination of satisfy()/solve(); that the real code refines the model (checked by correspondence on every run, '
                   'not proved); C01_flag_sound (flagged => infeasible) for the model is not proved (decided per run by the verified positive-cycle detector). '
-                  'Static Solver: verified oracles only (no model).',
+                  'Static Solver: verified oracles only (no model); domain = all multigraphs, report = thrown UnsatisfiedConstraint (legitimate iff the verified '
+                  'detector finds a positive cycle; a throw on a feasible cyclic system is the known finding static_solver_throws_on_feasible_cycle). '
+                  'Weight histories: the block-statistics invariant (all_ok) is not proved for them (stale sums in deleted blocks); its weight-independent part '
+                  '(A2 > 0, posn = (AD-AB)/A2) is evaluated on every visited model state (all_invb_w).',
     'technique': 'Coq proof of verified oracles and model invariants + extracted-model correspondence against libvpsc and libavoid/vpsc.cpp',
 }
